@@ -87,8 +87,63 @@ def transformed_case(col, entry, auto_update, seed):
                              "input": {"transform": entry, "auto_update": auto_update, "seed": seed}})
 
 
+def stale_entry_case(col, auto_on_at_entry, seed):
+    """simulate() entered with outdated nodes: hyper assigned while auto-update was off (and auto-update possibly switched back on, which
+    updates nothing): mu must be drawn around 2 * the NEW hyper"""
+    hyper = lsl.Var(np.float32(0.0), name="hyper")
+    loc = lsl.Calc(lambda h: 2.0 * h, hyper, _name="loc")
+    mu = lsl.param(np.float32(0.0), lsl.Dist(tfd.Normal, loc=loc, scale=0.01), name="mu")
+    x = lsl.obs(np.zeros(2, np.float32), lsl.Dist(tfd.Normal, loc=mu, scale=0.01), name="x")
+    model = lsl.GraphBuilder().add(x).build_model()
+    model.auto_update = False
+    model.vars["hyper"].value = np.float32(100.0)
+    if auto_on_at_entry:
+        model.auto_update = True
+    model.simulate(jax.random.PRNGKey(seed))
+    model.update()
+    m_, x_ = float(model.vars["mu"].value), np.asarray(model.vars["x"].value)
+    ok = abs(m_ - 200.0) < 1.0 and np.all(np.abs(x_ - m_) < 1.0)
+    col.add(None if ok else {"sig": "native::simulate::stale_entry", "what": f"hyper = 100 assigned with auto-update off, auto-update at entry = {auto_on_at_entry}: mu drawn as {m_} (expected about 200), x = {x_.tolist()}",
+                             "input": {"auto_update_at_entry": auto_on_at_entry, "seed": seed}})
+
+
+def copy_true_case(col, via, seed):
+    """a model built with copy=True: simulate() draws the MODEL's variables and leaves the user's original variables alone"""
+    mu = lsl.param(np.float32(0.0), lsl.Dist(tfd.Normal, loc=1000.0, scale=0.001), name="mu")
+    x = lsl.obs(np.zeros(3, np.float32), lsl.Dist(tfd.Normal, loc=mu, scale=0.001), name="x")
+    model = lsl.GraphBuilder().add(x).build_model(copy=True) if via == "builder" else lsl.Model([x], copy=True)
+    model.simulate(jax.random.PRNGKey(seed))
+    m_mu, m_x = float(model.vars["mu"].value), np.asarray(model.vars["x"].value)
+    ok = abs(m_mu - 1000.0) < 0.05 and np.all(np.abs(m_x - m_mu) < 0.05) and float(mu.value) == 0.0 and np.all(np.asarray(x.value) == 0.0) and model.vars["mu"] is not mu
+    col.add(None if ok else {"sig": "native::simulate::copy_true", "what": f"copy=True ({via}): model mu={m_mu}, x={m_x.tolist()}; the user's originals mu={float(mu.value)}, x={np.asarray(x.value).tolist()}",
+                             "input": {"built_via": via, "seed": seed}})
+
+
+def shape_cases(col, seed):
+    """drawn values keep the shape of the current values for per_obs on/off, leading sample dimensions, batch and event dimensions"""
+    import tensorflow_probability.substrates.jax.distributions as tfd_
+    key = jax.random.PRNGKey(seed)
+    for per_obs in (True, False):
+        mu = lsl.param(np.zeros((), np.float32), lsl.Dist(tfd_.Normal, loc=0.0, scale=1.0), name="mu")
+        dy = lsl.Dist(tfd_.Normal, loc=mu, scale=1.0)
+        dy.per_obs = per_obs
+        y = lsl.obs(np.zeros((7,), np.float32), dy, name="y")
+        db = lsl.Dist(tfd_.Normal, loc=np.zeros(3, np.float32), scale=1.0)  # batch shape (3,), two leading sample dimensions
+        db.per_obs = per_obs
+        b = lsl.Var(np.zeros((4, 2, 3), np.float32), db, name="b")
+        dm = lsl.Dist(tfd_.MultivariateNormalDiag, loc=np.zeros(3, np.float32), scale_diag=np.ones(3, np.float32))  # event shape (3,)
+        dm.per_obs = per_obs
+        m = lsl.Var(np.zeros((5, 3), np.float32), dm, name="m")
+        model = lsl.GraphBuilder().add(y, b, m).build_model()
+        before = {k: np.shape(v.value) for k, v in model.vars.items()}
+        model.simulate(key)
+        model.update()
+        after = {k: np.shape(v.value) for k, v in model.vars.items()}
+        col.add(None if after == before else {"sig": "native::simulate::shapes", "what": f"per_obs={per_obs}: shapes of the current values {before} became {after}", "input": {"per_obs": per_obs, "seed": seed}})
+
+
 def independence_case(col, auto_update, seed):
-    """every distributed variable is drawn with its OWN child of the seed: two i.i.d. siblings differ, a child's noise is not its parent's"""
+    """every distributed variable is drawn with its OWN child of the seed: models entered with outdated nodes (value assigned while auto-update was off); models built with copy=True (the user's originals stay untouched); shapes kept for per_obs on / off with leading sample, batch and event dimensions; two i.i.d. siblings differ, a child's noise is not its parent's"""
     a = lsl.param(np.zeros(4, np.float32), lsl.Dist(tfd.Normal, loc=0.0, scale=1.0), name="a")
     b = lsl.param(np.zeros(4, np.float32), lsl.Dist(tfd.Normal, loc=0.0, scale=1.0), name="b")
     x = lsl.obs(np.zeros(4, np.float32), lsl.Dist(tfd.Normal, loc=a, scale=1.0), name="x")
@@ -103,6 +158,20 @@ def independence_case(col, auto_update, seed):
 
 def bounded(tier, seed):
     col = util.Collector()
+    for au in (True, False):
+        try:
+            stale_entry_case(col, au, seed + 7)
+        except Exception as e:
+            col.add({"sig": f"native::simulate::exception::{type(e).__name__}", "what": str(e)[:200], "input": {"scenario": "stale entry", "auto_update_at_entry": au}})
+    for via in ("builder", "Model"):
+        try:
+            copy_true_case(col, via, seed + 5)
+        except Exception as e:
+            col.add({"sig": f"native::simulate::exception::{type(e).__name__}", "what": str(e)[:200], "input": {"scenario": "copy=True", "via": via}})
+    try:
+        shape_cases(col, seed + 9)
+    except Exception as e:
+        col.add({"sig": f"native::simulate::exception::{type(e).__name__}", "what": str(e)[:200], "input": {"scenario": "shapes with per_obs on/off"}})
     for au in (True, False):
         try:
             independence_case(col, au, seed + 1)
@@ -125,5 +194,5 @@ def bounded(tier, seed):
     return {"evaluations": col.evals, "distinct_nontrivial": len(combos),
             "rule": ("BOUNDED: models mu ~ N(1000, .001), log_sigma ~ N(-5, .001) (current 3.0), sigma = exp(log_sigma) cached, y (4x3) ~ N(loc, sigma) with loc = mu directly / through a weak "
                      "variable / through a bare Calc / positional mu with keyword scale; both auto-update settings; skip sets {}, {mu}, {y}: values near the NEW parents, shapes kept, skipped "
-                     f"untouched, nothing outdated after update, same seed same result, result independent of auto_update; two i.i.d. siblings and a child must not share their noise; a hierarchy with a re-parameterised (Var.transform, instance and default bijector) variable in the middle. seeds {seed}.."),
+                     f"untouched, nothing outdated after update, same seed same result, result independent of auto_update; models entered with outdated nodes (value assigned while auto-update was off); models built with copy=True (the user's originals stay untouched); shapes kept for per_obs on / off with leading sample, batch and event dimensions; two i.i.d. siblings and a child must not share their noise; a hierarchy with a re-parameterised (Var.transform, instance and default bijector) variable in the middle. seeds {seed}.."),
             "samples": [{"variant": "calc", "auto_update": False, "skip": []}], "exhaustive": False, "violations": col.violations}
